@@ -37,10 +37,12 @@ theorem appendFinish_spec {s : State} {h : Heap} {σ : List Tree} {x : Nat} {l e
     · cases tl with
       | null => exact simf
       | int n => exact simf
+      | dict ks vs => exact simf
       | list ts => simp only [hnone]; exact simf
     · cases tl with
       | null => rfl
       | int n => rfl
+      | dict ks vs => rfl
       | list ts => simp only [hnone]; first | rfl | trivial
   | some t1 =>
     rw [hsn] at md
@@ -57,6 +59,10 @@ theorem appendFinish_spec {s : State} {h : Heap} {σ : List Tree} {x : Nat} {l e
       dsimp only at A ⊢
       simp only [A.1]
       exact ⟨⟨by simpa using A.2.inv, sim_stable (T := []) md.2 (by simpa using A.2.stable)⟩, by first | rfl | trivial⟩
+    | dict ks vs =>
+      dsimp only at A ⊢
+      simp only [A.1]
+      exact ⟨⟨by simpa using A.2.inv, sim_stable (T := []) md.2 (by simpa using A.2.stable)⟩, by first | rfl | trivial⟩
     | list ts =>
       dsimp only at A ⊢
       obtain ⟨c, hc, trc, rc⟩ := A
@@ -67,7 +73,7 @@ theorem appendFinish_spec {s : State} {h : Heap} {σ : List Tree} {x : Nat} {l e
       obtain ⟨w, hw⟩ : ∃ w, withCell d.1 ap.1 x (fun h v => setIndex h v path c) = w := ⟨_, rfl⟩
       simp only [hw] at W ⊢
       obtain ⟨iw, _, mw⟩ := W
-      rw [getD_set_same _ _ _ _ hxσ, setPath_setPath _ hsn] at mw
+      rw [getD_set_same _ _ _ _ hxσ, setPath_setPath _ (treeWF_of_rep (All2.getD x .null .null sim hx)) hsn] at mw
       cases hsf : setPath (σ.getD x .null) path (.list (ts ++ [tv])) with
       | none =>
         exact absurd ((setPath_none_iff _ .null).1 hsf) (by rw [hsn]; simp)
@@ -132,7 +138,7 @@ theorem step_appendPop {s : State} {σ : List Tree} (R : Refines s σ) (x : Nat)
       simp only [hl]
       have sim1 : All2 (Rep rp.1) s.cells σ := sim_stable (T := []) R.sim (by simpa using stl)
       -- the right-hand side: pop y[ypath], with the old left-hand value `l` in the frame
-      have W := withCell_walk popLeaf_spec (s := s) (h := rp.1) (T := [l]) ypath hy (by simpa using il) sim1
+      have W := withCell_walk popLeaf_spec popLeaf_ins (s := s) (h := rp.1) (T := [l]) ypath hy (by simpa using il) sim1
       obtain ⟨w, hw⟩ : ∃ w, withCell s rp.1 y (fun h v => walk popLeaf h v ypath) = w := ⟨_, rfl⟩
       simp only [hw] at W ⊢
       obtain ⟨stw, hlen, mw⟩ := W
@@ -286,6 +292,10 @@ theorem step_callAppend {s : State} {σ : List Tree} (R : Refines s σ) (y x : N
       simp only [A.1]
       exact ⟨⟨by simpa using A.2.inv, sim_stable (T := []) sim2 (by simpa using A.2.stable)⟩, by first | rfl | trivial⟩
     | int n =>
+      dsimp only at A ⊢
+      simp only [A.1]
+      exact ⟨⟨by simpa using A.2.inv, sim_stable (T := []) sim2 (by simpa using A.2.stable)⟩, by first | rfl | trivial⟩
+    | dict ks vs =>
       dsimp only at A ⊢
       simp only [A.1]
       exact ⟨⟨by simpa using A.2.inv, sim_stable (T := []) sim2 (by simpa using A.2.stable)⟩, by first | rfl | trivial⟩
